@@ -26,6 +26,15 @@ glob metacharacters, in look-alike groups that always occur TOGETHER in a scenar
 'a', 'a.d'; 'bd', 'd', 'b', '.'; ...): the pid label of a gauge series must be the identity string exactly.
 FILE AGE: per scenario ('age': now / 3s / 1h / keep) the mtime of every store file is set before EVERY collection point
 (also right after mark_process_dead), as harness/props/c12.py does: a file that LOOKS idle must still be re-read.
+RACING COLLECTIONS: step ['race', [pid, ...], 'glob' | 'merge', place] — the collection that follows the step RACES with
+`mark_process_dead`: the collector lists the directory, then (before it reads anything) the given processes are reaped
+and mark_process_dead removes their live-gauge files (the only files that may legitimately vanish under a collector),
+then the collector reads what it listed, in the order `place` fixes (vanished files first / last / middle / spread from the
+first to the last position / reverse / OS order / seeded shuffle; a listing has no pinned order).  'glob': the real
+`collect()` with the `glob` name of prometheus_client.multiprocess hooked for that one listing; 'merge' (and whenever the
+hook does not fire): `MultiProcessCollector.merge(explicit list)`.  Oracle: exactly the ordinary one evaluated AFTER the
+reaping — the aggregate over the files that still exist: the reaped processes' live gauges are skipped, everything else
+(every file listed before or after a vanished one) is complete.  The model gets the surviving files in the order read.
 CORRUPT STORE FILES: a key in a file the library itself wrote that is no longer the canonical JSON of
 [str, str, {str: str}, str] is an oracle failure (C08:store-file-corrupt), not an infrastructure error.
 
@@ -488,6 +497,7 @@ class World:
         self.incarnation = {}
         self.events = 0
         self.want_sample = want_sample
+        self.race = None            # a ['race', ...] step waiting for the collection point that follows it
 
     def proc(self, pid):
         if pid not in self.procs:
@@ -507,26 +517,15 @@ class World:
         op = st[0]
         res.count('step:' + op)
         if op == 'dead':
-            pid = st[1]
-            self.events += 1
-            self.end(pid)           # the process is gone: its files are closed
-            from prometheus_client import multiprocess
-            before = [os.path.basename(p) for p in self.sim.listing()]
-            try:
-                multiprocess.mark_process_dead(pid, self.sim.dir)
-            except Exception as e:  # noqa
-                res.failures.append(('C08:mark-dead', 'mark_process_dead(%r) raised %s' % (pid, type(e).__name__), i))
-            self.oracle.dead(pid)
-            after = set(os.path.basename(p) for p in self.sim.listing())
-            if after != self.oracle.expected_files():
-                res.failures.append(('C08:mark-dead', 'after mark_process_dead(%r) the directory holds %s, expected %s' % (
-                    pid, sorted(after), sorted(self.oracle.expected_files())), i))
-            res.dead_pending.append((mpsim.dead_request(pid, before), after, i))
+            self.reap(i, st[1])
             return
         if op == 'reuse':
             self.events += 1
             self.end(st[1])
             self.proc(st[1])
+            return
+        if op == 'race':            # happens INSIDE the collection that follows this step (collect_point)
+            self.race = st
             return
         if op == 'foreign':
             self.foreign(i, st)
@@ -601,15 +600,90 @@ class World:
             if text != canonical_le(float(text)):
                 res.count('foreign:non-canonical-spelling')
 
+    def reap(self, i, pid):
+        """the process is gone and the master calls mark_process_dead(pid): real side, oracle, model request"""
+        from prometheus_client import multiprocess
+        res = self.res
+        self.events += 1
+        self.end(pid)           # the process is gone: its files are closed
+        before = [os.path.basename(p) for p in self.sim.listing()]
+        try:
+            multiprocess.mark_process_dead(pid, self.sim.dir)
+        except Exception as e:  # noqa
+            res.failures.append(('C08:mark-dead', 'mark_process_dead(%r) raised %s' % (pid, type(e).__name__), i))
+        self.oracle.dead(pid)
+        after = set(os.path.basename(p) for p in self.sim.listing())
+        if after != self.oracle.expected_files():
+            res.failures.append(('C08:mark-dead', 'after mark_process_dead(%r) the directory holds %s, expected %s' % (
+                pid, sorted(after), sorted(self.oracle.expected_files())), i))
+        res.dead_pending.append((mpsim.dead_request(pid, before), after, i))
+
+    def race_collect(self, i, st):
+        """A collection RACING with mark_process_dead: the collector lists the directory; right after the listing the
+        processes st[1] are reaped (mark_process_dead removes their live-gauge files — the only files that may
+        legitimately vanish under a collector); then the collector reads what it listed, in the order st[3] (the
+        vanished files first / last / in the middle / spread / ...).  The property's answer: the aggregate over the
+        files that still exist — the reaped processes' live gauges are skipped, EVERYTHING else is complete.
+        -> (families, surviving paths in the order they were read); self.race_text describes the race; raises what collect raises"""
+        res = self.res
+        pids = list(st[1])
+        via = st[2] if len(st) > 2 else 'glob'
+        place = st[3] if len(st) > 3 else 'keep'
+        ids = set(str(q) for q in pids)
+        doomed = set(bn for bn, (typ, mode, pid) in self.oracle.filemeta.items() if typ == 'gauge' and mode.startswith(LIVE) and pid in ids)
+        done = []
+
+        def between(ls):
+            done.append(ls)
+            for pid in pids:
+                self.reap(i, pid)
+
+        try:
+            fams, ls, how = mpsim.collect_racing(self.sim.dir, lambda l: mpsim.race_order(l, doomed, place), between, via)
+        finally:
+            if not done:        # the collector failed before it listed anything: the world moves on all the same
+                between([])
+            ls = done[0]
+            names = [os.path.basename(p) for p in ls]
+            gone = [k for k, p in enumerate(ls) if not os.path.exists(p)]
+            self.race_text = 'collection racing with mark_process_dead of %r — listed %s; vanished after the listing, before the reads: %s' % (
+                pids, names, [names[k] for k in gone] or 'nothing')
+        res.count('race:via-' + how)
+        res.count('race:place-' + place.split(':')[0])
+        res.count('race:reaped-%d' % min(len(pids), 3))
+        if not gone:
+            res.count('race:nothing-vanished')
+        else:
+            res.count('race:vanished-%d' % min(len(gone), 3))
+            if gone[0] == 0:
+                res.count('race:vanished-at-first-position')
+            if gone[-1] == len(ls) - 1:
+                res.count('race:vanished-at-last-position')
+            if any(0 < k < len(ls) - 1 for k in gone):
+                res.count('race:vanished-at-inner-position')
+            after = names[gone[0] + 1:]
+            for k in ('counter', 'summary', 'histogram', 'gauge'):
+                if any(bn.startswith(k + '_') and j + gone[0] + 1 not in gone for j, bn in enumerate(after)):
+                    res.count('race:%s-file-read-after-a-vanished-file' % k)
+        return fams, [p for p in ls if os.path.exists(p)]
+
     def collect_point(self, i, want_model=True):
         res = self.res
         res.count('points')
+        race, self.race = self.race, None
+        self.race_text = None
+        paths = None
         try:
-            real = self.sim.collect()
+            if race is not None:
+                real, paths = self.race_collect(i, race)
+            else:
+                real = self.sim.collect()
         except Exception as e:  # noqa
-            res.failures.append(('C08:collect-raises', 'collect() raised %s: %s' % (type(e).__name__, e), i))
+            res.failures.append(('C08:collect-raises', '%scollect() raised %s: %s' % (
+                self.race_text + ': ' if self.race_text else '', type(e).__name__, e), i))
             res.points.append((None, None))
             return
+        at = len(res.failures)
         canon, dups = mpsim.canon_fams(real)
         for sig, what in check_le_canonical(canon):
             res.failures.append((sig, what, i))
@@ -617,8 +691,11 @@ class World:
             res.failures.append(('C08:duplicate-series', d, i))
         for sig, what in check_oracle(canon, self.oracle.expected()):
             res.failures.append((sig, what, i))
-        paths = self.sim.listing()
-        names = set(os.path.basename(p) for p in paths)
+        if self.race_text:
+            res.failures[at:] = [(sig, self.race_text + ': ' + what, j) for sig, what, j in res.failures[at:]]
+        if paths is None:
+            paths = self.sim.listing()
+        names = set(os.path.basename(p) for p in self.sim.listing())
         if names != self.oracle.expected_files():
             res.failures.append(('C08:file-set', 'directory holds %s, the op log implies %s' % (
                 sorted(names), sorted(self.oracle.expected_files())), i))
@@ -665,7 +742,7 @@ def run_scenario(scen, want_model=True, want_sample=False):
         elif md['labels']:
             res.count('non-histogram-labelled:' + ('user-label-named-le' if 'le' in md['labels'] else 'other'))
     res.count('age:' + str(scen.get('age', 'keep')))
-    ids = set(st[1] for st in scen['steps'] if len(st) > 1)
+    ids = set(q for st in scen['steps'] if len(st) > 1 for q in (st[1] if st[0] == 'race' else [st[1]]))
     if any(isinstance(q, str) for q in ids):
         res.count('identities:strings')
         if any(len(ids & set(g)) >= 2 for g in ID_GROUPS):
@@ -772,6 +849,7 @@ def corpus():
         out.append({'pool': pool, 'steps': s})
     out += foreign_corpus()
     out += identity_corpus()
+    out += race_corpus()
     for k, sc in enumerate(out):
         sc.setdefault('age', AGES[k % 4])
     return out
@@ -795,6 +873,44 @@ def identity_corpus():
             ['inc', 1, 0, [], B(1.0)], ['inc', 1, 0, [], B(2.0)], ['inc', 2, 0, [], B(4.0)], ['inc', 1, 0, [], B(8.0)],
             ['set', 1, 1, [], B(1.0), B(10.0)], ['set', 1, 1, [], B(2.0), B(11.0)], ['obs', 2, 2, [], B(1.0)], ['obs', 2, 2, [], B(3.0)],
             ['dead', 1], ['inc', 2, 0, [], B(16.0)], ['reuse', 1], ['inc', 1, 0, [], B(32.0)]]})
+    return out
+
+
+def race_corpus():
+    """collections RACING with mark_process_dead: four workers each hold a counter, a summary, a histogram, a live gauge of
+    the mode, a second live gauge of another mode and a non-live gauge; between the collector's listing and its reads a
+    subset of the workers (first / middle / last of the listing, two, all) is reaped, so their live-gauge files are gone
+    when the collector gets to them — with files of every type listed after (and before) them, in every placement"""
+    out = []
+    live = [m for m in modes() if m.startswith(LIVE)]
+    pids = [10, 11, 12, 123]
+    subsets = [[10], [11], [123], [10, 12], [11, 123], [10, 11, 12, 123], [12, 7]]
+    places = list(mpsim.RACE_PLACES) + ['shuffle:1', 'shuffle:2']
+    k = 0
+    for a, mode in enumerate(live):
+        pool = [mdef('counter', 'jobs', ['queue']), mdef('summary', 'job_seconds'), mdef('histogram', 'h', (), '', 'small'),
+                mdef('gauge', 'inflight', (), mode), mdef('gauge', 'gl', ['l'], live[(a + 1) % len(live)]),
+                mdef('gauge', 'g', (), mode[len(LIVE):])]
+        setup = []
+        for j, pid in enumerate(pids):
+            setup += [['inc', pid, 0, ['default'], B(3.0 + j)], ['obs', pid, 1, [], B(0.5 + j)], ['obs', pid, 2, [], B([0.5, 2.0, 8.0, 1.0][j])],
+                      ['set', pid, 3, [], B([10.0, 20.0, 40.0, -5.0][j]), B(10.0 + j)], ['set', pid, 4, [['x'], ['y']][j % 2], B(1.0 + j), B(20.0 + j)],
+                      ['set', pid, 5, [], B(2.0 - j), B(30.0 + j)]]
+        for sub in subsets:
+            for via in ('glob', 'merge'):
+                place = places[k % len(places)]
+                k += 1
+                tail = [['race', sub, via, place], ['inc', 11, 0, ['default'], B(1.0)], ['reuse', sub[0]],
+                        ['set', sub[0], 3, [], B(7.0), B(50.0)], ['race', [sub[0], 11], via, places[(k + 3) % len(places)]]]
+                out.append({'pool': pool, 'steps': setup + tail})
+    # the demo shape: three workers, the doomed worker's file met first, everything else after it
+    pool = [mdef('counter', 'jobs', ['queue']), mdef('gauge', 'inflight', (), 'livesum'), mdef('summary', 'job_seconds')]
+    for place in ('first', 'middle', 'last'):
+        for via in ('glob', 'merge'):
+            s = []
+            for pid, (n, level, obs) in ((101, (3.0, 10.0, 1.5)), (202, (4.0, 20.0, 2.5)), (303, (5.0, 40.0, 0.5))):
+                s += [['inc', pid, 0, ['default'], B(n)], ['set', pid, 1, [], B(level), B(10.0)], ['obs', pid, 2, [], B(obs)]]
+            out.append({'pool': pool, 'steps': s + [['race', [101], via, place], ['race', [303, 202], via, place]]})
     return out
 
 
@@ -934,6 +1050,11 @@ def gen_foreign_step(rng, pool, cands, mi):
     return ['foreign', rng.choice(FOREIGN_PIDS), mi, lvs, pairs, B(rng.choice(SUM_ANY))]
 
 
+def gen_race_step(rng, pids):
+    place = rng.choice(mpsim.RACE_PLACES + ('shuffle:%d' % rng.randrange(1000),) * 3)
+    return ['race', rng.sample(pids, rng.randint(1, min(3, len(pids)))), rng.choice(['glob', 'glob', 'merge']), place]
+
+
 def gen_metric(rng, i, all_modes):
     r = rng.random()
     labels = rng.choice(LABEL_NAMES) if rng.random() < 0.55 else []
@@ -1026,6 +1147,9 @@ def gen_scenario(rng, all_modes, long=False):
             hs.append(len(pool) - 1)
         for _ in range(rng.randint(1, 3)):
             steps.insert(rng.randint(len(steps) // 3, len(steps)), gen_foreign_step(rng, pool, cands, rng.choice(hs)))
+    if rng.random() < 0.45:     # collections racing with mark_process_dead (see World.race_collect), at random positions
+        for _ in range(rng.choice([1, 1, 2, 3])):
+            steps.insert(rng.randint(len(steps) // 3, len(steps)), gen_race_step(rng, pids))
     return {'pool': pool, 'steps': steps, 'age': rng.choice(AGES)}
 
 
@@ -1038,7 +1162,7 @@ def gen_fork_scenario(rng, all_modes):
         sc = gen_scenario(rng, all_modes)
         ops = []
         for st in sc['steps']:
-            if st[0] in ('dead', 'reuse'):
+            if st[0] in ('dead', 'reuse', 'race'):
                 continue
             mi = st[2] % len(pool)
             md = pool[mi]
@@ -1278,7 +1402,9 @@ def run(ctx):
     all_modes = modes()
     ctx.rule = ('scenario = metric pool (counters, summaries, histograms of 5 bucket layouts, gauges of the 10 modes, labelled or not) '
                 '+ step list over 1-4 simulated processes (create / child / inc / dec / observe / set at a scripted time / '
-                'Gauge.set_to_current_time at a scripted time / Counter.reset / mark_process_dead / pid reuse / foreign histogram store file with non-canonical le spellings, written through the '
+                'Gauge.set_to_current_time at a scripted time / Counter.reset / mark_process_dead / pid reuse / a collection RACING with mark_process_dead of 1-3 '
+                'processes (reaped between the collector\'s listing and its reads, vanished live-gauge files first/middle/last/spread/shuffled in the listing, '
+                'through collect() with the listing hooked and through merge(explicit list)) / foreign histogram store file with non-canonical le spellings, written through the '
                 'library store); label names before and after "le"; int and string identities (look-alike groups together); file mtimes '
                 'aged per scenario (now/3s/1h/keep) before every collection; hand-written corpus per mode first, then seeded random scenarios; one case = '
                 'one collection point (a collection follows every step); non-trivial when >= 2 processes hold data or a '
